@@ -6,6 +6,7 @@ cube: ops (string over S F U X I M, see below), cls ("local"|"base"), link, stat
   S stage directory + transfer into the cache        F stage single file + transfer
   U stage directory with upload=True + transfer      X cache -> second store (other class) transfer
   I index build + md5 + save (nested trees)          M migrate the cache (md5) to a sha256 store
+  L stage + transfer into a legacy (md5-dos2unix) store that shares the hash-state cache with the md5 store
 symbolic: per slot presence and content selector (empty / CRLF text / binary / same as slot 0), pre-existing objects in the cache.
 """
 import hashlib
@@ -19,7 +20,7 @@ from dvc_data.hashfile.transfer import transfer
 from dvc_data.hashfile.tree import Tree
 
 from vf.env import make_env
-from vf.hlib import B, HarnessGap, NoTracing, cube, journal, pick, violation
+from vf.hlib import B, HarnessGap, NoTracing, Viol, cube, journal, pick, violation
 
 OPS = cube("ops", "S")
 CLS = cube("cls", "local")
@@ -37,6 +38,15 @@ def _canon(listing):
     return json.dumps(sorted(listing, key=lambda e: e["relpath"]), sort_keys=True).encode()
 
 
+def _legacy_md5(data):
+    """md5-dos2unix, stated independently: CRLF -> LF before hashing iff the first 512 bytes look like text"""
+    head = data[:512]
+    text = bool(head) and 0 not in head and 10 * sum(1 for b in head if not (32 <= b < 127 or b in (8, 9, 10, 12, 13))) <= 3 * len(head)
+    if not head:
+        text = True
+    return hashlib.md5(data.replace(b"\r\n", b"\n") if text else data).hexdigest()
+
+
 def audit(env, odb, alg, local):
     """every object of the store is named by the digest of its own bytes; local objects are read-only"""
     objs = env.odb_objects(odb)
@@ -44,7 +54,7 @@ def audit(env, odb, alg, local):
     for oid, data in objs.items():
         if oid.endswith(".tmp") or ".tmp" in oid:
             continue
-        want = hashlib.new(alg, data).hexdigest()
+        want = _legacy_md5(data) if alg == "md5-dos2unix" else hashlib.new(alg, data).hexdigest()
         if oid.endswith(".dir"):
             if oid != want + ".dir":
                 violation("directory-object-name-does-not-match-bytes", (oid, want))
@@ -73,7 +83,7 @@ def h_ops(p0: bool, p1: bool, p2: bool, c0: int, c1: int, c2: int, pre: int) -> 
     env = make_env()
     try:
         with NoTracing():
-            st = env.state() if WITH_STATE else None
+            st = env.state() if (WITH_STATE or "L" in OPS) else None
             cfg = {"type": [LINK]}
             if st is not None:
                 cfg["state"] = st
@@ -97,6 +107,10 @@ def h_ops(p0: bool, p1: bool, p2: bool, c0: int, c1: int, c2: int, pre: int) -> 
                 env.write(cache.oid_to_path(hashlib.md5(b"foreign").hexdigest()), b"foreign", mode=0o444 if CLS == "local" else None)
         obj = None
         stores = [(cache, "md5", CLS == "local"), (other, "md5", CLS != "local"), (sha, "sha256", CLS == "local")]
+        if "L" in OPS:
+            with NoTracing():
+                legacy = env.local_odb("legacy", hash_name="md5-dos2unix", state=st)
+            stores.append((legacy, "md5-dos2unix", True))
 
         def check_all(step):
             with NoTracing():
@@ -106,7 +120,10 @@ def h_ops(p0: bool, p1: bool, p2: bool, c0: int, c1: int, c2: int, pre: int) -> 
         done = []
         for op in OPS:
             try:
-                if op == "S":
+                if op == "L":
+                    lstaging, _, lobj = build(legacy, src, env.fs, "md5-dos2unix")
+                    transfer(lstaging, legacy, {lobj.hash_info}, shallow=False)
+                elif op == "S":
                     staging, meta, obj = build(cache, src, env.fs, "md5")
                     transfer(staging, cache, {obj.hash_info}, shallow=False)
                     with NoTracing():
@@ -156,7 +173,7 @@ def h_ops(p0: bool, p1: bool, p2: bool, c0: int, c1: int, c2: int, pre: int) -> 
                         a, b = env.odb_objects(cache), env.odb_objects(sha)
                         if sorted(a.values()) != sorted(b.values()):
                             violation("migration-lost-or-changed-objects", (len(a), len(b)))
-            except HarnessGap:
+            except (HarnessGap, Viol):
                 raise
             except Exception as e:  # noqa: BLE001
                 violation("operation-raised", (op, f"{type(e).__name__}: {e}"))
